@@ -338,16 +338,23 @@ class CMapParser(PSStackParser[PSKeyword]):
             return
 
         if token is self.KEYWORD_DEF:
+            objs = self.pop(2)
+            if len(objs) != 2:
+                # "def" without a key and a value before it
+                return
             try:
-                ((_, k), (_, v)) = self.pop(2)
+                ((_, k), (_, v)) = objs
                 self.cmap.set_attr(literal_name(k), v)
             except PSSyntaxError:
                 pass
             return
 
         if token is self.KEYWORD_USECMAP:
+            objs = self.pop(1)
+            if not objs:
+                return
             try:
-                ((_, cmapname),) = self.pop(1)
+                ((_, cmapname),) = objs
                 self.cmap.use_cmap(CMapDB.get_cmap(literal_name(cmapname)))
             except PSSyntaxError:
                 pass
